@@ -14,7 +14,6 @@ NOT_APPLICABLE = {
     'C15': 'oracle is execution in a Lua VM; flow narrowing is whole-analysis',
     'C17': 'render -> parse -> infer round trip over strings and the type system',
     'C18': 'generic instantiation is a whole-pipeline property',
-    'C28': 'deadlock freedom over RwLock acquisition order across async tasks: whole-history, no model in this family',
     'C29': 'interleavings of reload with notifications: schedules, not function contracts',
     'C30': 'debounce timers and cancellation across tasks: schedules, not function contracts',
     'C34': 'conversion is url::Url + percent_encoding: dependency code',
